@@ -93,7 +93,8 @@ def check(run: common.Run):
     hist["T09.1 instances on the implementation"] = 4 ** 4 * 4
 
     # (b) processing.fix / chain history = {source}
-    gitems = [it for it in drv.guard_cases(mods, run.tier, only_all_valid=True, n=4) if it["which"] != "_replace_nodes"]
+    gitems = [it for it in drv.guard_cases(mods, run.tier, only_all_valid=True, n=4)
+              if it["which"] not in ("_replace_nodes", "fix1")]
     bad, errs = drv.run_simple_cases(wd, "fixloop", "guard_case", "guard_case_ok",
                                      [drv.guard_case_to_coq(it) for it in gitems])
     disagreements += errs
@@ -128,10 +129,10 @@ def check(run: common.Run):
     # ---- sweep (not proof): x, f(x), ..., f^7(x)
     fam = sw.build_corpus(run.tier)
     iters = BUDGET + 2
-    budget = 50 if run.tier == "quick" else 1200
+    budget = 35 if run.tier == "quick" else 1200
     deadline = time.time() + budget
     jobs, meta = [], {}
-    step = {"quick": {"repo": 3, "functions": 2, "constructs": 1, "eof": 1}, "thorough": {}}[run.tier]
+    step = {"quick": {"repo": 5, "functions": 3, "constructs": 2, "eof": 1}, "thorough": {}}[run.tier]
     for name in ("functions", "repo", "constructs", "eof"):
         srcs = [s for s in fam[name] if sw.valid(s)][::step.get(name, 1)]
         for i, s in enumerate(srcs):
@@ -179,12 +180,13 @@ def check(run: common.Run):
         evaluations=fc["evaluations"] + len(gitems) + len(fcases) + 4 ** 4 * 4,
         distinct_nontrivial=fc["distinct"] + sum(1 for o in fobs if len(o["passes"]) >= 2),
         rule=("correspondence cases: (a) main.format_code with every stage replaced by a table lookup over a "
-              "4-text universe: ALL f : 4 -> 4 on one stage of _multi_run_fixes x 4 start texts x safe x keep_imports "
-              "x {module, indented fragment} (exhaustive, seed independent), successor chains around MAX_FILE_PASSES "
+              "4-text universe: ALL f : 4 -> 4 on one stage of _multi_run_fixes x 4 start texts x keep_imports "
+              "x {module, indented fragment}, `safe` alternating in the quick tier and crossed in the thorough tier "
+              "(exhaustive, seed independent), successor chains around MAX_FILE_PASSES "
               "(budget exhaustion of either loop), seeded random scripts; result text, full stage trace and preserve "
               "set must equal DriverModel.format_code_run; (b) processing.fix / chain with a scripted rule: all "
-              "f : 4 -> 4 x 4 starts x {max_iter 1, 4, default fix, default chain}; (c) main.format_files with format_file "
-              "scripted: all pairs of tables 3 -> 3 on two folders x max_passes in {0,1,2,MAX}, chains beyond the "
+              "f : 4 -> 4 x 4 starts x {max_iter 4, default fix, default chain}; (c) main.format_files with format_file "
+              "scripted: all pairs of tables 3 -> 3 on two folders x max_passes in {1,MAX} (every 4th pair for {0,2}), chains beyond the "
               "budget, seeded random folder layouts; per-pass file sets, final contents, return value; 5 cases "
               "through the real multiprocessing pool. Non-trivial = >= 2 multi-run passes with a distinct "
               "(trace, result) / >= 2 format_files passes."),
